@@ -69,7 +69,7 @@ ANCHORS = {
     "ibldsp/utils.py": {
         "sync_timestamps": ["C19"], "parabolic_max": ["C07", "C19"], "fronts": ["C10"], "rises": ["C10"], "falls": ["C10"],
         "WindowGenerator.__init__": ["C17"], "WindowGenerator.firstlast_splicing": ["C17"], "WindowGenerator.firstlast_valid": ["C17"],
-        "WindowGenerator.firstlast": ["C17"], "WindowGenerator.slice": ["C17"], "WindowGenerator.slice_array": ["C17"], "WindowGenerator.tscale": ["C17"],
+        "WindowGenerator.firstlast": ["C17", "C03", "C12"], "WindowGenerator.slice": ["C17"], "WindowGenerator.slice_array": ["C17"], "WindowGenerator.tscale": ["C17"],
         "make_channel_index": ["C13"], "rms": ["C06"],
     },
     "ibldsp/waveforms.py": {
@@ -223,7 +223,7 @@ def mutated_source(m):
 def run_one(m, tier="quick", jobs=4):
     tmp = Path(tempfile.mkdtemp(prefix="verif-amut-", dir="/var/tmp"))
     try:
-        shutil.copytree(REPO / "src", tmp / "src", ignore=shutil.ignore_patterns("__pycache__", "tests"))
+        shutil.copytree(REPO / "src", tmp / "src", ignore=shutil.ignore_patterns("__pycache__"))
         try:
             new = mutated_source(m)
             compile(new, m["file"], "exec")
